@@ -170,7 +170,9 @@ mod dl {
                     if head & FLAG4 != 0 {
                         bad.push(format!("flag4@{}", rel(p, base)));
                     }
-                    if head & PINUSE == 0 {
+                    // prev_foot is meaningful when the previous chunk is free; the foot word after top
+                    // (head = top_foot_size, no flag bits) has no predecessor to describe
+                    if head & PINUSE == 0 && head & CINUSE != 0 {
                         let _ = write!(s, ":{}", (*c).prev_foot);
                     }
                     if size == 0 {
@@ -574,6 +576,14 @@ fn fnv(s: &str) -> u64 {
     h
 }
 
+/// plain decimal digits only (what the Lean driver accepts)
+fn dec(s: &str) -> Option<u64> {
+    if s.is_empty() || s.len() > 20 || !s.bytes().all(|b| b.is_ascii_digit()) {
+        return None;
+    }
+    s.parse::<u64>().ok()
+}
+
 fn parse_os(toks: &[&str]) -> Option<()> {
     let o = os();
     o.dirs.clear();
@@ -589,10 +599,10 @@ fn parse_os(toks: &[&str]) -> Option<()> {
                 }
                 o.policy = rest.as_bytes()[0];
             }
-            "F" => o.fail_k = Some(rest.parse().ok()?),
+            "F" => o.fail_k = Some(dec(rest)? as usize),
             "M" => {
                 o.concrete = true;
-                o.dirs.push_back(Dir::M(if rest == "-" { None } else { Some(rest.parse().ok()?) }));
+                o.dirs.push_back(Dir::M(if rest == "-" { None } else { Some(dec(rest)? as usize) }));
             }
             "R" | "U" => {
                 o.concrete = true;
@@ -617,7 +627,10 @@ fn run_op(h: &mut H, w: &[&str]) -> String {
         None => (w, &[]),
     };
     let kind = opw[0];
-    let nums: Option<Vec<u64>> = opw[1..].iter().map(|x| x.parse::<u64>().ok()).collect();
+    if opw.is_empty() {
+        return "bad-op".into();
+    }
+    let nums: Option<Vec<u64>> = opw[1..].iter().map(|x| dec(x)).collect();
     let nums = match nums {
         Some(n) => n,
         None => return "bad-op".into(),
@@ -838,8 +851,8 @@ fn main() {
                     h.full = w[1] == "full";
                     "ok".to_string()
                 }
-                "verify" if w.len() == 2 && w[1].parse::<usize>().is_ok() => {
-                    h.verify_every = w[1].parse().unwrap();
+                "verify" if w.len() == 2 && dec(w[1]).is_some() => {
+                    h.verify_every = dec(w[1]).unwrap() as usize;
                     "ok".to_string()
                 }
                 "pure" => match catch_unwind(|| dl::pure::eval_pure(&w[1..])) {
